@@ -104,41 +104,72 @@ theorem C11_state_running_iff_partial (h : List (Nat × POp)) (hok : HistOk (fun
 theorem C11_lose_frame (p : Proc) (now i j : Nat) (hij : j ≠ i) :
     ∀ p', pstep p now (.lose i) = .ok p' → p'.infos.get? j = p.infos.get? j := by
   intro p' hp
-  simp only [pstep] at hp
+  simp only [pstep, invalidateIdentifier] at hp
   split at hp
-  · simp only [invalidateIdentifier] at hp
-    split at hp
-    · split at hp
-      · rename_i v hv
-        simp only [updateInfo, hv] at hp
-        -- `updateStatus` keeps `infos`
-        have : ∀ q r, updateStatus q i .fatal = .ok r → r.infos = q.infos := by
-          intro q r hq
-          unfold updateStatus at hq
-          simp only at hq
-          repeat' split at hq
-          all_goals first | (injection hq with hq; subst hq; rfl) | (cases hq)
-        rw [this _ _ hp]
-        unfold resetForced
-        split <;> simp [Infos.get?_set_other _ _ _ _ hij]
-      · cases hp
-    · injection hp with hp; subst hp; rfl
+  · split at hp
+    · rename_i v hv
+      simp only [updateInfo, hv] at hp
+      -- `updateStatus` keeps `infos`
+      have : ∀ q r, updateStatus q i .fatal = .ok r → r.infos = q.infos := by
+        intro q r hq
+        unfold updateStatus at hq
+        simp only at hq
+        repeat' split at hq
+        all_goals first | (injection hq with hq; subst hq; rfl) | (cases hq)
+      rw [this _ _ hp]
+      unfold resetForced
+      split <;> simp [Infos.get?_set_other _ _ _ _ hij]
+    · cases hp
   · injection hp with hp; subst hp; rfl
 
-/-! ### The two input classes on which the current code departs from the statement (known findings) -/
+/-! ### The input class on which the current code departs from the statement (known finding), and the one that was repaired -/
 
 /-- the full-strength listing statement, for *every* guarded history (`upd`/`remove` only on existing entries) -/
 def C11_listed_iff_spec_statement : Prop :=
   ∀ h : List (Nat × POp), ∀ p, prun {} h = .ok p → ∀ i, i ∈ p.running ↔ (view i h).listed = true
 
-/-- Known finding `C11:lose-while-only-stopping`: a process STOPPING on the lost instance stays listed there.
-    Witness replayed on the implementation by `corpus/C11/kf_lose_while_only_stopping.json`. -/
+/-- Known finding `C11:remove-entry-not-stopped` refutes it: removing an entry that is still running leaves it listed.
+    (Until the repair of `Context.invalidate_failed` a second class did: `C11:lose-while-only-stopping`.) -/
 theorem C11_listed_iff_spec_refuted : ¬ C11_listed_iff_spec_statement := by
   intro hs
-  have := hs [(1, .add 1 .starting true 117 false), (2, .upd 1 .stopping true 121 false), (3, .lose 1)]
-    _ rfl 1
+  have := hs [(1, .add 0 .running false 106 false), (2, .remove 0)] _ rfl 0
   revert this
   decide
+
+/-- **C11 (a lost instance is never left listed) - repaired defect `C11:lose-while-only-stopping`.**  Whatever the process
+    (any entries, any synthetic state - in particular when its only listed copies are STOPPING), once the loss of instance `i`
+    has been processed without error `i` is no longer among the running identifiers. -/
+theorem resetForced_running (q : Proc) (x : Option PState) : (resetForced q x).running = q.running := by
+  unfold resetForced; split <;> rfl
+
+/-- `updateStatus` with a stopped-like state erases the instance from the list -/
+theorem updateStatus_fatal_running (q r : Proc) (i : Nat) (hq : updateStatus q i .fatal = .ok r) :
+    r.running = q.running.erase i := by
+  unfold updateStatus at hq
+  have hrun : updRunning q i .fatal = q.running.erase i := by simp [updRunning, PState.isStopped]
+  simp only [hrun] at hq
+  repeat' split at hq
+  all_goals first | (injection hq with hq; subst hq; rfl) | (cases hq)
+
+theorem C11_lose_unlists (p : Proc) (now i : Nat) (hnd : p.running.Nodup) :
+    ∀ p', pstep p now (.lose i) = .ok p' → i ∉ p'.running := by
+  intro p' hp
+  simp only [pstep, invalidateIdentifier] at hp
+  split at hp
+  · split at hp
+    · rename_i v hv
+      simp only [updateInfo, hv] at hp
+      rw [updateStatus_fatal_running _ _ _ hp, resetForced_running]
+      intro hm
+      exact ((List.Nodup.mem_erase_iff hnd).mp hm).1 rfl
+    · cases hp
+  · rename_i hc
+    injection hp with hp; subst hp
+    simpa using hc
+
+/-- the witness history of the former known finding, now in agreement with the statement: STARTING, STOPPING, then the loss -/
+example : ∃ p, prun {} [(1, .add 1 .starting true 117 false), (2, .upd 1 .stopping true 121 false), (3, .lose 1)] = .ok p
+    ∧ p.running = [] ∧ p.state = .fatal := ⟨_, rfl, by decide, by decide⟩
 
 /-- Known finding `C11:remove-entry-not-stopped`: removing an entry that is still running leaves it listed. -/
 theorem C11_remove_running_stays_listed :
@@ -151,9 +182,7 @@ example : HistOk (fun _ => View.init)
     [(1, .add 1 .running true 1 false), (2, .add 2 .starting true 2 false), (3, .upd 1 .stopping true 3 false),
      (4, .lose 2), (5, .upd 1 .stopped true 6 false), (6, .remove 1)] := by
   refine ⟨trivial, trivial, by simp [OpOk, stepViews, viewStep, View.init, listedStep, PState.isRunning, PState.isStopped],
-          ?_, by simp [OpOk, stepViews, viewStep, View.init, listedStep, PState.isRunning, PState.isStopped], ?_, trivial⟩
-  · intro _
-    exact ⟨2, .starting, true, by simp [stepViews, viewStep, View.init, listedStep, PState.isRunning, PState.isStopped]⟩
+          trivial, by simp [OpOk, stepViews, viewStep, View.init, listedStep, PState.isRunning, PState.isStopped], ?_, trivial⟩
   · exact ⟨.stopped, true, by simp [stepViews, viewStep, View.init, listedStep, PState.isRunning, PState.isStopped]⟩
 
 example : ∃ p, prun {} [(1, .add 1 .running true 1 false), (2, .add 2 .starting true 2 false),
